@@ -47,6 +47,10 @@ const (
 	FamBig        // a few documents with large incompressible stored values: data section > 1 MiB
 	FamHuge       // > 65535 documents: document numbers span several roaring containers
 	FamMid        // 1..28 documents focused on one posting list (multi-chunk under fixed sizes), plus unique terms
+	FamSparse     // 4096..66000 mostly empty documents under chunk sizes 1..16: chunk tables with thousands of entries
+	FamAligned    // a small batch padded so that the persisted data section is an exact multiple of 256 / 4096 / 32768 / 65536 bytes
+	FamDVGaps     // >1024 documents, 2..4 doc-value fields each present in a few ranges only
+	FamCounts     // statistics at their varint width boundaries: 127/128/16383/16384 documents carrying a field, total frequencies up to 2^61
 )
 
 // how a segment is held
@@ -213,6 +217,15 @@ func GenLeaf(t *rapid.T, ctx *Ctx, sc *Scenario, cfg CaseCfg, label string) (*Se
 			}
 		}
 		b, desc = p.Batch(sc), p.String()
+	case FamCounts:
+		p := GenCounts(t)
+		b, desc = p.Batch(sc), p.String()
+	case FamSparse:
+		p := GenSparse(t)
+		b, desc = p.Batch(sc), p.String()
+	case FamDVGaps:
+		p := GenDVGaps(t)
+		b, desc = p.Batch(sc), p.String()
 	case FamTerms:
 		b = manyTermsBatch(t, label)
 		desc = fmt.Sprintf("many-terms{%d docs x %d terms}", len(b), len(b[0].Fields[0].Terms))
@@ -225,20 +238,33 @@ func GenLeaf(t *rapid.T, ctx *Ctx, sc *Scenario, cfg CaseCfg, label string) (*Se
 	case FamMid:
 		b = genPostingBatch(t, sc)
 		desc = "posting-batch " + b.String()
+	case FamAligned:
+		b = GenBatch(t, sc, 4)
+		desc = b.String()
 	default:
 		b = GenBatch(t, sc, cfg.MaxDocs)
 		desc = b.String()
 	}
 	modes := ChunkModes
-	if cfg.Family == FamWide || cfg.Family == FamHuge {
+	if cfg.Family == FamWide || cfg.Family == FamHuge || cfg.Family == FamDVGaps {
 		modes = []uint32{1025, 1025, 1024, 100, 7}
 	}
+	if cfg.Family == FamSparse {
+		modes = SparseModes
+	}
 	mode := rapid.SampledFrom(modes).Draw(t, label+":mode")
-	if rapid.IntRange(0, 5).Draw(t, label+":anyMode") == 0 {
+	if cfg.Family != FamSparse && rapid.IntRange(0, 5).Draw(t, label+":anyMode") == 0 {
 		mode = uint32(rapid.IntRange(1, 1024).Draw(t, label+":modeValue")) // any fixed chunk size
 	}
 	if !HooksOn {
 		mode = 1025
+	}
+	aligned := 0
+	if cfg.Family == FamAligned {
+		align := rapid.SampledFrom([]int{256, 4096, 32768, 32768, 65536}).Draw(t, label+":align")
+		var ok bool
+		b, aligned, ok = AlignBatch(b, sc.Norm, mode, align, uint64(rapid.IntRange(1, 1000).Draw(t, label+":alignSeed")))
+		desc += fmt.Sprintf(" +stored padding in the last document: data section %d bytes = %d x %d (converged=%v)", aligned, aligned/align, align, ok)
 	}
 	seg, err := Build(b, sc.Norm, mode)
 	if err != nil {
@@ -247,6 +273,9 @@ func GenLeaf(t *rapid.T, ctx *Ctx, sc *Scenario, cfg CaseCfg, label string) (*Se
 	c := &SegCase{Seg: seg, Exp: Expect(b, sc.Norm.F), Docs: b, Mode: mode,
 		Desc: fmt.Sprintf("built(mode=%d){%s}", mode, desc)}
 	batchLabels(b, c)
+	if aligned > 0 {
+		c.label("data-section-size-aligned")
+	}
 	if maxChunks(c.Exp, mode) >= 2 {
 		c.label("multi-chunk")
 	}
@@ -266,7 +295,7 @@ func GenLeaf(t *rapid.T, ctx *Ctx, sc *Scenario, cfg CaseCfg, label string) (*Se
 			return nil, err
 		}
 	}
-	if cfg.Family != FamWide && cfg.Family != FamHuge {
+	if cfg.Family != FamWide && cfg.Family != FamHuge && cfg.Family != FamCounts && cfg.Family != FamSparse && cfg.Family != FamDVGaps {
 		Prelude(t, c, sc, label)
 	}
 	return c, nil
@@ -431,11 +460,14 @@ func GenMerge(t *rapid.T, ctx *Ctx, sc *Scenario, cfg CaseCfg, depth int, label 
 		drops[i] = GenDrops(t, ins[i].Exp.N, fmt.Sprintf("%s.%d", label, i))
 	}
 	modes := ChunkModes
-	if cfg.Family == FamWide || cfg.Family == FamHuge {
+	if cfg.Family == FamWide || cfg.Family == FamHuge || cfg.Family == FamDVGaps {
 		modes = []uint32{1025, 1025, 1024, 100, 7}
 	}
+	if cfg.Family == FamSparse {
+		modes = SparseModes
+	}
 	mode := rapid.SampledFrom(modes).Draw(t, label+":outMode")
-	if rapid.IntRange(0, 5).Draw(t, label+":anyOutMode") == 0 {
+	if cfg.Family != FamSparse && rapid.IntRange(0, 5).Draw(t, label+":anyOutMode") == 0 {
 		mode = uint32(rapid.IntRange(1, 1024).Draw(t, label+":outModeValue"))
 	}
 	if !HooksOn {
@@ -450,7 +482,7 @@ func GenMerge(t *rapid.T, ctx *Ctx, sc *Scenario, cfg CaseCfg, depth int, label 
 		return nil, err
 	}
 	mergeLabels(c, ins, drops)
-	if cfg.Family != FamWide && cfg.Family != FamHuge {
+	if cfg.Family != FamWide && cfg.Family != FamHuge && cfg.Family != FamCounts && cfg.Family != FamSparse && cfg.Family != FamDVGaps {
 		Prelude(t, c, sc, label)
 	}
 	return c, nil
